@@ -1,6 +1,7 @@
 import SoyVerif.Ops.Common
 import SoyVerif.Model.AstWire
 import SoyVerif.Model.Parser
+import SoyVerif.Base.F64
 
 namespace SoyVerif.Ops.Parser
 open SoyVerif SoyVerif.Ops SoyVerif.Model
@@ -33,8 +34,16 @@ def perr (input : Bytes) : Parser.PErr → String
   | .panic => "PANIC"
   | .fuelOut => "HANG"
 
-/-- float literal parsing used by the parser ops (replaced by Base/F64 once merged) -/
-def parseFloatStub (_ : Bytes) : Option UInt64 := none
+/-- strconv.ParseFloat(s, 64) on a float token through the soft-float of Base/F64.lean:
+    an overflow to ±Inf is a range error -/
+def parseFloatStub (s : Bytes) : Option UInt64 :=
+  let (neg, digits) := match s with
+    | 45 :: r => (true, r)
+    | 43 :: r => (false, r)
+    | r => (false, r)
+  match F64.parseDecimal digits with
+  | some f => if f.isInf then none else some (if neg then (F64.neg f).bits else f.bits)
+  | none => none
 
 def ops : List Op := [
   ("parseexpr", fun f => match f with
@@ -45,6 +54,18 @@ def ops : List Op := [
         | .ok e => "OK " ++ (AstWire.encExpr e).toStr
         | .error e => perr input e
       | _, _ => "BADREQ"
+    | _ => "BADREQ"),
+  -- leak prediction for parse.Expr: fields = source, tokens
+  ("leak", fun f => match f with
+    | ["expr", _, toks] =>
+      match decItems toks with
+      | some items =>
+        let o := Parser.exprEntry parseFloatStub items
+        match o.result with
+        | .error .panic => "PANIC"
+        | .error .fuelOut => "HANG"
+        | _ => if o.drained then "OK" else "LEAK"
+      | none => "BADREQ"
     | _ => "BADREQ")
 ]
 
